@@ -186,6 +186,29 @@ func c11Check(text string, assignKind int, monitor bool, secSecrets []string) (g
 			add("history", "C11:stale-after-write-error-then-retry", fmt.Sprintf("assignment (first=%v), then an assignment whose file write fails, then the same assignment again (acknowledged): the file on disk differs from the one a fresh injector writes for it", withFirst))
 		}
 	}
+	// the production write path (a real file, no hook): after a longer file a shorter one, and the other way round
+	{
+		dirR := fmt.Sprintf("%s/c11-real-%d", os.Getenv("VERIF_SCRATCH"), os.Getpid())
+		empty := map[string][]*target.Target{}
+		freshEmpty, errE := pipe.Inject(info, empty, opt)
+		for _, h := range []struct {
+			name  string
+			steps []pipe.Step
+			want  []byte
+		}{
+			{"longer-then-shorter", []pipe.Step{{Info: info, Assigned: assigned}, {Assigned: other}, {Assigned: empty}}, freshEmpty},
+			{"shorter-then-longer", []pipe.Step{{Info: info, Assigned: empty}, {Assigned: other}}, freshOther},
+			{"default-config-then-real", []pipe.Step{{Assigned: assigned}, {Info: info}, {Assigned: empty}}, freshEmpty},
+		} {
+			got, err := pipe.InjectToRealFile(dirR, h.steps, opt)
+			if err != nil || errE != nil || errO != nil {
+				add("history", "C11:history-error:real-file", fmt.Sprintf("%s: %v / %v / %v", h.name, err, errE, errO))
+			} else if string(got) != string(h.want) {
+				add("history", "C11:stale-file-on-disk:"+h.name, fmt.Sprintf("injector writing a real file, %s: the file on disk (%d bytes) is not the one a fresh injector generates for the last input (%d bytes)", h.name, len(got), len(h.want)))
+			}
+		}
+		os.RemoveAll(dirR)
+	}
 	// a sidecar running from a configuration file: a reload of content the loader rejects changes nothing
 	for _, rj := range []struct{ name, text string }{
 		{"same-length", strings.Replace(text, "job_name: j2", "job_nmae: j2", 1)},
